@@ -125,6 +125,48 @@ func TestVerifReplayValues(t *testing.T) {
 	fmt.Printf("REPLAY-CASES fn=%s n=%d\n", fnStr, m)
 	// inbound decimal64: string and JSON forms convert to the value they denote (digits * 10^-precision), never panic
 	vrDecimalInbound()
+	// integer text (device XML, defaults, union members): decimal only, leading zeros do not change the value
+	{
+		k := 0
+		for _, c := range []struct {
+			typ, text string
+			ok        bool
+			want      int64
+		}{
+			{"uint8", "10", true, 10}, {"uint8", "010", true, 10}, {"uint16", "0100", true, 100}, {"uint8", "0", true, 0}, {"uint8", "255", true, 255}, {"uint8", "256", false, 0},
+			{"uint8", "0x10", false, 0}, {"uint8", "0b11", false, 0}, {"uint8", "1_0", false, 0}, {"uint32", "08", true, 8},
+			{"int8", "-010", true, -10}, {"int8", "-128", true, -128}, {"int8", "-129", false, 0}, {"int32", "00017", true, 17}, {"int16", "0x10", false, 0}, {"int64", "-9223372036854775808", true, -9223372036854775808},
+		} {
+			k++
+			fnC := "(*utils.URnges).IsWithinAnyRangeString"
+			if strings.HasPrefix(c.typ, "int") {
+				fnC = "(*utils.SRnges).IsWithinAnyRangeString"
+			}
+			func() {
+				defer func() {
+					if r := recover(); r != nil {
+						fmt.Printf("REPLAY-FAIL fn=%s clause=panic input=%s from text %q panic=%v\n", fnC, c.typ, c.text, r)
+					}
+				}()
+				tv, err := Convert(c.text, &sdcpb.SchemaLeafType{Type: c.typ, TypeName: c.typ})
+				if (err == nil && tv != nil) != c.ok {
+					fmt.Printf("REPLAY-FAIL fn=%s clause=decimal_text input=%s from text %q why=result %v err %v, valid decimal in range: %v\n", fnC, c.typ, c.text, tv, err, c.ok)
+					return
+				}
+				if c.ok {
+					got := int64(tv.GetUintVal())
+					if strings.HasPrefix(c.typ, "int") {
+						got = tv.GetIntVal()
+					}
+					if got != c.want {
+						fmt.Printf("REPLAY-FAIL fn=%s clause=decimal_text input=%s from text %q why=converted to %d\n", fnC, c.typ, c.text, got)
+					}
+				}
+			}()
+		}
+		fmt.Printf("REPLAY-CASES fn=%s n=%d\n", "(*utils.URnges).IsWithinAnyRangeString", k)
+		fmt.Printf("REPLAY-CASES fn=%s n=%d\n", "(*utils.SRnges).IsWithinAnyRangeString", k)
+	}
 	// ConvertString with schema patterns, including XSD-only syntax that Go cannot compile: an error, never a panic
 	{
 		fnS := "utils.ConvertString"
